@@ -515,7 +515,7 @@ def s3_prefix_iterators(props=None):
 # ------------------------------------------------------------------ the facade over boto3 (A5)
 for _n in ('S3Client', 'S3Bucket', 'S3Objects', 'S3Collection', 'S3Body'):
     LAT.add(_n, ['object'])
-_eng.OBJMETHODS |= {('S3Client', 'put_object'), ('S3Client', 'get_object'), ('S3Objects', 'filter'), ('S3Collection', 'delete'), ('S3Body', 'read'), ('S3Object', 'get'),
+_eng.OBJMETHODS |= {('S3Client', 'put_object'), ('S3Client', 'get_object'), ('S3Objects', 'filter'), ('S3Collection', 'delete'), ('S3Collection', 'limit'), ('S3Collection', 'page_size'), ('S3Body', 'read'), ('S3Object', 'get'),
                     ('keyiter', '__next__')}
 LASTMOD = z3.Function('last_modified', Str, z3.IntSort())          # ghost: put time of the object stored under a key
 
@@ -539,8 +539,12 @@ class FacadeSpec(S3Spec):
             return [(st, ('val', st.rd(recv, 'content')))]
         if cls == 'S3Objects' and name == 'filter':
             c = st.alloc('S3Collection'); st.wr(c, 'prefix', kw.get('Prefix', NONE)); st.g['filters'] = st.g.get('filters', []) + [c]; return [(st, ('val', c))]
+        if cls == 'S3Collection' and name in ('limit', 'page_size'):
+            # boto3: limit(n) RESTRICTS the collection to its first n objects (page_size only changes the batching)
+            c = st.alloc('S3Collection'); st.wr(c, 'prefix', st.rd(recv, 'prefix')); st.wr(c, 'restricted', B(True) if name == 'limit' else st.rd(recv, 'restricted')); return [(st, ('val', c))]
         if cls == 'S3Collection' and name == 'delete':
-            st.g['blog'] = st.g['blog'] + [('delete_prefix', Val.sv(st.rd(recv, 'prefix')), None, {})]; return [(st, ('val', NONE))]
+            restricted = st.entails(st.rd(recv, 'restricted') == B(True))
+            st.g['blog'] = st.g['blog'] + [('delete_some_under_prefix' if restricted else 'delete_prefix', Val.sv(st.rd(recv, 'prefix')), None, {})]; return [(st, ('val', NONE))]
         if cls == 'S3Object' and name == 'get':
             b = st.alloc('S3Body'); st.wr(b, 'content', st.g['bucket'][Val.sv(st.rd(recv, 'key'))]); st.g['content_reads'] = st.g.get('content_reads', []) + [recv]
             return [(st, ('val', st.new_dict([(S('Body'), b)])))]
